@@ -652,6 +652,7 @@ func main() {
 	noMut := flag.Bool("nomutants", false, "skip the mutation self-test")
 	list := flag.Bool("list", false, "list registered properties")
 	manifest := flag.Bool("manifest", false, "rewrite MANIFEST.json from the registry")
+	doc := flag.Bool("doc", false, "print the per-property section of DESIGN.md (markdown) from the registry and the last evidence files")
 	flag.StringVar(&repoDir, "repo", "/repo", "repository to analyse")
 	flag.StringVar(&verifDir, "verif", "/verif", "verif directory (findings, evidence, replay)")
 	flag.Parse()
@@ -667,6 +668,10 @@ func main() {
 			fmt.Println("ERROR:", err)
 			os.Exit(2)
 		}
+		return
+	}
+	if *doc {
+		writeDoc()
 		return
 	}
 	if *list {
@@ -743,3 +748,55 @@ var configSuffix = regexp.MustCompile(`@[a-z0-9]+/[a-z0-9]+`)
 // stripConfig removes the @goos/goarch marker of non-host configurations: a reviewed
 // exception or known finding applies to the construct in every configuration.
 func stripConfig(key string) string { return configSuffix.ReplaceAllString(key, "") }
+
+// writeDoc prints, for every claimed property, what its check decides (the registry's own text), the rule instance
+// counts of the last evidence file and the mutation catalogue.
+func writeDoc() {
+	var ids []string
+	for id := range registry {
+		ids = append(ids, id)
+	}
+	sort.Strings(ids)
+	for _, id := range ids {
+		d := registry[id]
+		fmt.Printf("### %s — %s\n\n", d.ID, d.Title)
+		tech := d.Technique
+		if tech == "" {
+			tech = "static analysis: repository-specific rules over the type-checked AST (go/packages, go/types)"
+		}
+		fmt.Printf("*Level:* other (structural necessary conditions). *Technique:* %s.\n\n", tech)
+		fmt.Printf("%s\n\n", d.Explanation)
+		if len(d.Assumptions) > 0 {
+			fmt.Printf("*Trusted:* %s.\n\n", strings.Join(d.Assumptions, "; "))
+		}
+		// last evidence
+		if b, err := os.ReadFile(filepath.Join(verifDir, "evidence", d.ID+".json")); err == nil {
+			var ev map[string]interface{}
+			if json.Unmarshal(b, &ev) == nil {
+				if cov, ok := ev["coverage"].(map[string]interface{}); ok {
+					fmt.Printf("*Last run (%v tier):* %v obligations, %v discharged", ev["tier"], cov["obligations"], cov["discharged"])
+					if rc, ok := cov["instances_per_rule"].(map[string]interface{}); ok {
+						var rs []string
+						for k, v := range rc {
+							rs = append(rs, fmt.Sprintf("%s %v", k, v))
+						}
+						sort.Strings(rs)
+						fmt.Printf("; rule instances: %s", strings.Join(rs, ", "))
+					}
+					fmt.Printf(".\n\n")
+				}
+			}
+		}
+		if len(d.Mutants) > 0 {
+			var ms []string
+			for _, m := range d.Mutants {
+				n := m.Name
+				if m.Canary {
+					n += "*"
+				}
+				ms = append(ms, n)
+			}
+			fmt.Printf("*Self-test mutants (applied in memory, `*` = also in the quick tier):* %s.\n\n", strings.Join(ms, ", "))
+		}
+	}
+}
